@@ -102,6 +102,10 @@ type Spec struct {
 	PMissingFile int `json:"p_missing_file"`
 	MaxLen       int `json:"max_len"`
 	MaxChunks    int `json:"max_chunks"`
+	// If set, collection lengths / chunk counts are drawn from these
+	// (boundary values) instead of 0..Max.
+	LenChoices   []int `json:"len_choices,omitempty"`
+	ChunkChoices []int `json:"chunk_choices,omitempty"`
 	// Write extra unreferenced files, tmp files.
 	ExtraFiles bool `json:"extra_files"`
 	// Side directory for files created outside the pipestance.
